@@ -209,7 +209,8 @@ class Check(object):
     def finish(self):
         self.cov["distinct_nontrivial"] = len(self._distinct)
         wall = time.time() - self.t0
-        os.makedirs(os.path.join(VERIF, "evidence"), exist_ok=True)
+        evdir = os.environ.get("VERIF_EVIDENCE_DIR") or os.path.join(VERIF, "evidence")
+        os.makedirs(evdir, exist_ok=True)
         os.makedirs(os.path.join(VERIF, "replays"), exist_ok=True)
         for k in known_for(self.prop):
             if self.known_hits.get(k["id"]):
@@ -239,7 +240,7 @@ class Check(object):
         ev = {"property_id": self.prop, "tier": self.tier, "seed": seed(), "level": self.level,
               "coverage": cov, "assumptions": self.assumptions, "wall_s": round(wall, 2),
               "violations": nviol}
-        with open(os.path.join(VERIF, "evidence", "%s.json" % self.prop), "w") as f:
+        with open(os.path.join(evdir, "%s.json" % self.prop), "w") as f:
             json.dump(ev, f, indent=1, default=str)
         print("%s tier=%s seed=%d evaluations=%d distinct=%d states=%d traces=%d violations=%d known=%d wall=%.1fs"
               % (self.prop, self.tier, seed(), cov.get("evaluations", 0), cov.get("distinct_nontrivial", 0),
